@@ -38,18 +38,20 @@ type c18File struct {
 	Deferred bool
 	Texts    []string
 	Expected [][]gen.Triple
-	Data     []byte // encrypted file
-	First    []byte // writer-reset: the file written before Reset
-	Plain    []byte // the same rows and configuration written without encryption (baseline)
+	Data     []byte        // encrypted file
+	First    []byte        // writer-reset: the file written before Reset
+	Steps    []c18Step     // interleaved: the history
+	Src      reflect.Value // interleaved: the rows in the order they are handed to the writers (Rows is in file order)
+	Plain    []byte        // the same rows and configuration written without encryption (baseline)
 }
 
 func (c *c18File) desc() string {
-	return fmt.Sprintf("%s|%s|%s|path=%s|batches=%v|blooms=%v|deferred=%v", c.E.Name, c.Cfg.Desc, c.Enc.Desc(), c.Path, c.Batches, c.Blooms, c.Deferred)
+	return fmt.Sprintf("%s|%s|%s|path=%s|batches=%v|blooms=%v|deferred=%v|steps=%v", c.E.Name, c.Cfg.Desc, c.Enc.Desc(), c.Path, c.Batches, c.Blooms, c.Deferred, c.Steps)
 }
 
 func (c *c18File) detail(extra map[string]any) map[string]any {
 	m := map[string]any{"type": c.E.Name, "config": c.Cfg.Desc, "encryption": c.Enc.Desc(), "writer_path": c.Path,
-		"batches": c.Batches, "bloom_filters": c.Blooms, "deferred_bloom": c.Deferred, "rows": c.Texts}
+		"batches": c.Batches, "bloom_filters": c.Blooms, "deferred_bloom": c.Deferred, "rows": c.Texts, "history": fmt.Sprint(c.Steps)}
 	if len(c.Texts) > 30 {
 		m["rows"] = append(append([]string{}, c.Texts[:30]...), fmt.Sprintf("... %d rows, regenerate with the run seed", len(c.Texts)))
 	}
@@ -59,7 +61,83 @@ func (c *c18File) detail(extra map[string]any) map[string]any {
 	return m
 }
 
-var c18Paths = []string{"generic-writer", "writer-write-any", "generic-buffer-rowgroup", "write-rows", "writer-reset", "begin-rowgroup"}
+var c18Paths = []string{"generic-writer", "writer-write-any", "generic-buffer-rowgroup", "write-rows", "writer-reset", "begin-rowgroup", "interleaved"}
+
+// c18Step is one call of an interleaved history: rows Src[Lo:Hi] go to the writer itself ("main")
+// or to one of two row groups made by BeginRowGroup ("A", "B"), which are committed in some order
+// and written to again after their Commit.
+type c18Step struct {
+	Op     string // main-write | main-flush | A-write | A-write-flush | A-commit | B-write | B-write-flush | B-commit
+	Lo, Hi int
+}
+
+func (s c18Step) String() string {
+	if s.Hi > s.Lo {
+		return fmt.Sprintf("%s[%d:%d]", s.Op, s.Lo, s.Hi)
+	}
+	return s.Op
+}
+
+// c18History draws a history over n rows and returns it with the order in which the rows end up in
+// the file: Commit flushes the writer's own rows first, then the committed row group.
+func c18History(r *rand.Rand, n int) ([]c18Step, []int) {
+	var steps []c18Step
+	var order []int
+	pend := map[string][]int{}
+	next := 0
+	take := func() (int, int) {
+		k := 1 + r.Intn(1+n/4)
+		if r.Intn(3) == 0 {
+			k = 1 + r.Intn(3)
+		}
+		lo := next
+		next = min(n, next+k)
+		return lo, next
+	}
+	flushMain := func() { order = append(order, pend["main"]...); pend["main"] = nil }
+	commit := func(g string) {
+		steps = append(steps, c18Step{Op: g + "-commit"})
+		flushMain()
+		order = append(order, pend[g]...)
+		pend[g] = nil
+	}
+	for next < n {
+		switch r.Intn(9) {
+		case 0, 1:
+			lo, hi := take()
+			steps = append(steps, c18Step{"main-write", lo, hi})
+			for i := lo; i < hi; i++ {
+				pend["main"] = append(pend["main"], i)
+			}
+		case 2:
+			steps = append(steps, c18Step{Op: "main-flush"})
+			flushMain()
+		case 3, 4, 5, 6:
+			g := []string{"A", "B"}[r.Intn(2)]
+			lo, hi := take()
+			op := g + "-write"
+			if r.Intn(3) == 0 {
+				op += "-flush" // rg.Flush(): an attempt to spill pages before the ordinal is known
+			}
+			steps = append(steps, c18Step{op, lo, hi})
+			for i := lo; i < hi; i++ {
+				pend[g] = append(pend[g], i)
+			}
+		default:
+			commit([]string{"A", "B"}[r.Intn(2)])
+		}
+	}
+	for _, g := range r.Perm(2) {
+		if name := []string{"A", "B"}[g]; len(pend[name]) > 0 {
+			commit(name)
+		}
+	}
+	if r.Intn(2) == 0 && len(pend["main"]) > 0 {
+		steps = append(steps, c18Step{Op: "main-flush"})
+	}
+	flushMain() // Close
+	return steps, order
+}
 
 // c18WriteWith writes the rows through the chosen path with the given options.
 func c18WriteWith(c *c18File, opts []parquet.WriterOption, r *rand.Rand) (out []byte, err error) {
@@ -79,6 +157,37 @@ func c18WriteWith(c *c18File, opts []parquet.WriterOption, r *rand.Rand) (out []
 		err = c.E.WriteGenericBuffer(&buf, rows, c.Batches, opts...)
 	case "write-rows":
 		err = c.E.WriteRows(&buf, rows, opts...)
+	case "interleaved":
+		pw := parquet.NewWriter(&buf, append([]parquet.WriterOption{c.E.Schema}, opts...)...)
+		rgs := map[string]*parquet.ConcurrentRowGroupWriter{}
+		for _, st := range c.Steps {
+			var prs []parquet.Row
+			for i := st.Lo; i < st.Hi; i++ {
+				prs = append(prs, c.E.Schema.Deconstruct(nil, c.Src.Index(i).Addr().Interface()))
+			}
+			g := st.Op[:1]
+			if g == "A" || g == "B" {
+				if rgs[g] == nil {
+					rgs[g] = pw.BeginRowGroup()
+				}
+			}
+			switch {
+			case st.Op == "main-write":
+				_, err = pw.WriteRows(prs)
+			case st.Op == "main-flush":
+				err = pw.Flush()
+			case strings.HasSuffix(st.Op, "-commit"):
+				_, err = rgs[g].Commit()
+			default:
+				if _, err = rgs[g].WriteRows(prs); err == nil && strings.HasSuffix(st.Op, "-flush") {
+					err = rgs[g].Flush()
+				}
+			}
+			if err != nil {
+				return nil, fmt.Errorf("step %v: %w", st, err)
+			}
+		}
+		err = pw.Close()
 	case "writer-reset", "begin-rowgroup":
 		var prs []parquet.Row
 		for i := 0; i < c.Rows.Len(); i++ {
@@ -138,7 +247,7 @@ func c18WriteWith(c *c18File, opts []parquet.WriterOption, r *rand.Rand) (out []
 
 func (c *c18File) opts(encrypted bool) []parquet.WriterOption {
 	opts := append([]parquet.WriterOption{}, c.Cfg.Opts...)
-	if c.Path == "begin-rowgroup" {
+	if c.Path == "begin-rowgroup" || c.Path == "interleaved" {
 		opts = append(opts, parquet.MaxRowsPerRowGroup(0)) // a BeginRowGroup writer refuses more rows than the limit
 	}
 	if len(c.Blooms) > 0 {
@@ -164,6 +273,21 @@ func c18NewFile(r *rand.Rand, e *gen.Entry, path string) (*c18File, error, error
 	rows := e.NewRows(n)
 	gen.FillRows(r, rows, prof)
 	c := &c18File{E: e, Rows: rows, Cfg: gen.RandWriterCfg(r), Enc: c18RandEnc(r, e.Schema), Batches: c01Batches(r, n), Path: path}
+	if path == "interleaved" {
+		var order []int
+		c.Steps, order = c18History(r, n)
+		c.Src = rows
+		rows = e.NewRows(n)
+		for k, i := range order {
+			rows.Index(k).Set(c.Src.Index(i))
+		}
+		c.Rows = rows
+		c.Batches = nil
+		if r.Intn(2) == 0 { // small pages: row groups spill pages long before they are committed
+			c.Cfg.Opts = append(c.Cfg.Opts, parquet.PageBufferSize(1+r.Intn(96)))
+			c.Cfg.Desc += " +pagebuf-small"
+		}
+	}
 	if path == "begin-rowgroup" || path == "generic-buffer-rowgroup" {
 		// no Flush markers for these paths
 		var b []int
@@ -381,7 +505,10 @@ func RunC18Roundtrip(ctx *core.Ctx) {
 			for k := 0; k < ncases; k++ {
 				path := c18Paths[k%len(c18Paths)]
 				if k >= len(c18Paths) {
-					path = c18Paths[r.Intn(4)] // the plain paths dominate after one pass over all six
+					path = c18Paths[r.Intn(4)] // the plain paths dominate after one pass over all of them
+					if r.Intn(3) == 0 {
+						path = "interleaved"
+					}
 				}
 				c18RoundtripCase(ctx, r, e, path, k == 0 && e.Name == "T000")
 			}
